@@ -109,7 +109,16 @@ pub fn real_trace(v: &RunView, sid: u32) -> RealTrace {
             }
             RecKind::Mark { args, config } => {
                 let tag = args.first().map(|s| unquote(s)).unwrap_or_default();
-                let rest: Vec<String> = args.iter().skip(1).map(|a| if a.starts_with("Error") { "<error>".to_string() } else { a.clone() }).collect();
+                let mut rest: Vec<String> = args.iter().skip(1).map(|a| if a.starts_with("Error") { "<error>".to_string() } else { a.clone() }).collect();
+                // transition marks that record the standard _event fields (name, type, sendid, origin, origintype,
+                // invokeid): a field the event does not have is "blank" - null in one data model, undefined in another
+                if rest.len() == 6 && tag.starts_with('t') {
+                    for a in rest.iter_mut().skip(2) {
+                        if a == "<none>" {
+                            *a = "null".to_string();
+                        }
+                    }
+                }
                 Some(Obs::Mark { tag, args: rest, config: names(config) })
             }
             RecKind::IntRecv { ev } => Some(Obs::IntRecv(ev.name.clone())),
